@@ -171,8 +171,7 @@ func (d *DeliverResp) IEncode() ([]byte, error) {
 	defer b.Release()
 
 	smgp.WriteHeaderNoLength(d.Header, b)
-	msgID, _ := hex.DecodeString(d.MsgID)
-	b.WriteFixedLenString(string(msgID), 10)
+	b.WriteFixedLenString(rawMsgID(d.MsgID), 10)
 	b.WriteUint32(d.Result.Data())
 
 	return b.BytesWithLength()
